@@ -25,11 +25,11 @@ theorem hash_route_independent {g g' : Game} (h : Reach g) (h' : Reach g') (e : 
   Chess.hash_route_independent (reach_wf h) (reach_wf h') e
 
 /-- **C04.3** Exporting a reachable game as FEN and importing it again yields the same hash
-(when the import succeeds and its rights/en-passant data are backed by the board, which they are:
-they denote the same abstract position). -/
-theorem hash_survives_reimport {g g' : Game} (h : Reach g) (hok : Game.ofFen g.fen = .ok g')
-    (hr : g'.RightsInv) (he : g'.EpInv) : g'.hash = g.hash := by
-  have h' : Reach g' := Reach.imported g.fen g' hok hr he
+(whenever the import succeeds: the reader checks that the rights/en-passant data are backed by the
+board, so the imported game is reachable, and it denotes the same abstract position). -/
+theorem hash_survives_reimport {g g' : Game} (h : Reach g) (hok : Game.ofFen g.fen = .ok g') :
+    g'.hash = g.hash := by
+  have h' : Reach g' := Reach.imported g.fen g' hok
   have e : g'.abs = g.abs := by
     have h1 := ofFen_sound hok
     rw [fen_denotes g] at h1
